@@ -268,6 +268,13 @@ def replay(ctx, data):
         ck, gk = PROGRAMS[inp['program']][:2]
         print('declarations :', decl_text([r for r in rows if r['cls'] in d[ck] and r['name'] == name]) or 'none')
         print('schema entry :', next((e['raw'] for e in d[gk] if e['name'] == name), 'absent from the generated schema'))
+    if inp['check'] == 'committed' and inp['program'] in PROGRAMS:
+        _, gk, ck = PROGRAMS[inp['program']][:3]
+        print('generated    :', next((e['raw'] for e in d[gk] if e['name'] == name), d[PROGRAMS[inp['program']][3]] if name == '<required>' else 'absent'))
+        print('committed    :', next((e['raw'] for e in d[ck] if e['name'] == name), d[PROGRAMS[inp['program']][4]] if name == '<required>' else 'absent'))
+    if inp['check'] == 'result-field':
+        print('client lists the field:', (inp['category'], inp['field']) in d['client_fields'],
+              '| extracted from a synthetic report line:', synthetic_extract(inp['category'], inp['field']))
     hits = [v for v in ctx.violations if v.key == data['key']]
     for v in hits:
         print('still failing:', v.what[:400])
